@@ -73,15 +73,26 @@ func digestMessageType(mt protoreflect.MessageType) string {
 func digestFile(fd protoreflect.FileDescriptor) string {
 	h := fnv.New64a()
 	fmt.Fprint(h, fd.Path(), fd.Package(), fd.Syntax(), fd.Imports().Len(), fd.Messages().Len(), fd.Enums().Len(), fd.Extensions().Len(), fd.Services().Len())
-	fmt.Fprint(h, fd.Options() != nil)
+	optBytes := func(o protoreflect.ProtoMessage) []byte {
+		b, _ := proto.MarshalOptions{Deterministic: true, AllowPartial: true}.Marshal(o)
+		return b
+	}
+	fmt.Fprint(h, optBytes(fd.Options()))
 	var walk func(mds protoreflect.MessageDescriptors)
 	walk = func(mds protoreflect.MessageDescriptors) {
 		for i := 0; i < mds.Len(); i++ {
 			md := mds.Get(i)
-			fmt.Fprint(h, md.FullName(), md.Fields().Len(), md.Options() != nil)
+			fmt.Fprint(h, md.FullName(), md.Fields().Len(), optBytes(md.Options()))
 			for j := 0; j < md.Fields().Len(); j++ {
 				f := md.Fields().Get(j)
-				fmt.Fprint(h, f.FullName(), f.JSONName(), f.Default().String(), f.Options() != nil)
+				fmt.Fprint(h, f.FullName(), f.JSONName(), f.Default().String(), optBytes(f.Options()))
+			}
+			for j := 0; j < md.Enums().Len(); j++ {
+				ed := md.Enums().Get(j)
+				fmt.Fprint(h, ed.FullName(), optBytes(ed.Options()))
+				for k := 0; k < ed.Values().Len(); k++ {
+					fmt.Fprint(h, optBytes(ed.Values().Get(k).Options()))
+				}
 			}
 			walk(md.Messages())
 		}
